@@ -222,6 +222,13 @@ impl RtpHeader {
                 break;
             }
 
+            // A block parsed from the wire may declare an element longer than
+            // what is left of the block; stop there (get_extension ignores such
+            // an element too) instead of slicing out of range.
+            if offset + len > ext.data.len() {
+                break;
+            }
+
             if ext_id == id {
                 found = true;
                 new_data.push(id_header);
